@@ -138,10 +138,22 @@ def origin_of_operand(fn, op, depth=12, _seen=None):
     if op.kind in ("const", "other"):
         txt = op.const.get("text", "") if op.const else ""
         m = _PROMO.search(txt)
-        if m and op.const.get("k") in ("unknown", "indirect", "ptr", "scalar", None) and fn.promoted:
+        if m and op.const.get("k") in ("unknown", "indirect", "ptr", "scalar", None):
             i = int(m.group(1))
-            if i < len(fn.promoted):
-                pf = fn.promoted_fn(i)
+            # the constant belongs to the function named in front of `::promoted[i]` — after a helper was spliced in, that
+            # is the helper, not the function whose body is being read
+            owner_path = txt[:m.start()].rsplit("::promoted", 1)[0] if "::promoted" in txt[:m.end()] else None
+            owner_path = txt.split("::promoted[")[0].split("{")[-1].strip().lstrip("&*").strip() if "::promoted[" in txt else None
+            owner = fn
+            prog_ = getattr(fn, "prog", None)
+            norm_ = lambda s_: strip_generics(s_) if s_ else s_
+            if owner_path and norm_(owner_path) != norm_(fn.path) and prog_ is not None:
+                owner = prog_.fns.get(owner_path) or getattr(prog_, "absorbed", {}).get(owner_path)
+                if owner is None:
+                    cands_ = [f_ for p_, f_ in list(prog_.fns.items()) + list(getattr(prog_, "absorbed", {}).items()) if norm_(p_) == norm_(owner_path)]
+                    owner = cands_[0] if len(cands_) == 1 else (fn if not fn.j.get("inlined") else None)
+            if owner is not None and owner.promoted and i < len(owner.promoted):
+                pf = owner.promoted_fn(i)
                 return Origin("ref", "promoted", [origin_of_local(pf, 0, depth).strip()])
         return Origin("const", op.const)
     return origin_of_place(fn, op.place, depth, _seen)
@@ -393,12 +405,31 @@ def dominating_guards(fn, site_bb, _depth=0):
         # `matches!(x, P)` / `a && b` style: the switched bool is a temporary assigned only constants; the outcome
         # then implies having passed the block that assigned that constant: inherit that block's guards
         if bval is not None and _depth < 2 and t.discr.place is not None and t.discr.place.is_local():
-            cs = const_assigns_to(fn, t.discr.place.local)
-            alld = [x for x in local_defs(fn).get(t.discr.place.local, []) if x[1] != "partial"]
+            root_l = t.discr.place.local
+            for _hop in range(4):            # the switched temporary may be a plain copy of the (named) bool
+                ds_ = [x for x in local_defs(fn).get(root_l, []) if x[1] != "partial"]
+                if len(ds_) == 1 and ds_[0][1] == "assign" and ds_[0][2].rv is not None and ds_[0][2].rv.k == "use" and ds_[0][2].rv.ops and ds_[0][2].rv.ops[0].place is not None and ds_[0][2].rv.ops[0].place.is_local() \
+                        and fn.dominates(ds_[0][0], d) and root_l not in mut_borrowed(fn):
+                    root_l = ds_[0][2].rv.ops[0].place.local
+                else:
+                    break
+            cs = const_assigns_to(fn, root_l)
+            alld = [x for x in local_defs(fn).get(root_l, []) if x[1] != "partial"]
             if cs and len(cs) == len(alld):
                 srcs = [bb for bb, v in cs if v is bval]
                 if len(srcs) == 1 and srcs[0] != site_bb:
                     for g2 in dominating_guards(fn, srcs[0], _depth + 1):
+                        if not any(g2["bb"] == g["bb"] for g in out):
+                            out.append(g2)
+            elif cs and len(cs) == len(alld) - 1 and not any(v is bval for _, v in cs):
+                # `let c = a && b; if c`: c is a constant on the short-circuit path and the last operand otherwise. The
+                # outcome that no constant gives means the computed definition ran and had that value.
+                nd = [x for x in alld if not any(x[0] == bb_ and x[1] == "assign" and x[2].rv is not None and x[2].rv.k == "use" and x[2].rv.ops and x[2].rv.ops[0].kind == "const" for bb_, _ in cs)]
+                nd = [x for x in alld if not (x[1] == "assign" and x[2].rv is not None and x[2].rv.k == "use" and x[2].rv.ops and x[2].rv.ops[0].kind == "const")]
+                if len(nd) == 1 and nd[0][0] != site_bb:
+                    po = _origin_of_def(fn, nd[0], 10, {root_l})
+                    out.append({"bb": nd[0][0], "labels": [], "pred": po, "bool": bval, "target": None, "all_labels": [], "derived": True})
+                    for g2 in dominating_guards(fn, nd[0][0], _depth + 1):
                         if not any(g2["bb"] == g["bb"] for g in out):
                             out.append(g2)
     return out
